@@ -203,7 +203,9 @@ static void dom_edge(int r, int nper, int close, U64Vec *out) {
 }
 
 // ---- IDX: hostile index alphabet. size 0 = small (~7k values), 1 = large
+// large: 1 = large, 0 = small, -1 = tiny (no two-bit flips)
 static void dom_idx_bases(int large, U64Vec *b) {
+    if (large < 0) large = 0;
     static const int bcs_s[] = {0, 4, 14, 58, 117, 121}, bcs_l[] = {0, 1, 4, 14, 20, 38, 58, 63, 97, 117, 120, 121};
     const int *bcs = large ? bcs_l : bcs_s;
     int nb = large ? 12 : 6;
@@ -228,7 +230,7 @@ static void dom_idx(int large, U64Vec *out) {
         uv_push(out, h);
         for (int x = 0; x < 64; x++) {
             uv_push(out, h ^ (1ull << x));
-            if (large || i % 4 == 0)
+            if (large > 0 || (large == 0 && i % 4 == 0))
                 for (int y = x + 1; y < 64; y += (large ? 1 : 5)) uv_push(out, h ^ (1ull << x) ^ (1ull << y));
         }
         for (int m = 0; m < 16; m++) {
